@@ -3,8 +3,8 @@
     lemma proved elsewhere, with [Print Assumptions] beneath.  bin/pqv
     re-checks every statement with [Check (name : forall ..., statement)] and
     every [Print Assumptions] on each run. *)
-From PQV Require Import AbsPQProofs AbsCostProofs ListProofs IterProofs UnwindProofs HashIndep GhostIndep Final EqRel ClearDrop Refine RefineDet.
-From PQV Require Export PropSpec RefineSpec RefineDet.
+From PQV Require Import AbsPQProofs AbsCostProofs ListProofs IterProofs UnwindProofs HashIndep GhostIndep Final EqRel ClearDrop Refine RefineDet RefineMachine.
+From PQV Require Export PropSpec RefineSpec RefineDet RefineMachine.
 
 (* C01 *)
 Theorem C01_invariant : forall (I P : Type) (keq : I -> I -> bool) (hash : I -> N) (ple : P -> P -> bool) (peq : P -> P -> bool) (alloc_limit : N), run_good_stmt keq hash ple peq alloc_limit.
@@ -400,3 +400,23 @@ Print Assumptions C03_spec_tight_run.
 Theorem C18_tie_free_outputs_from_map_alone : forall (I P : Type) (keq : I -> I -> bool) (hash : I -> N) (ple : P -> P -> bool), spec_run_det_stmt keq hash ple.
 Proof. intros; apply @RefineDet.spec_run_det_closed. Qed.
 Print Assumptions C18_tie_free_outputs_from_map_alone.
+
+(* C03 *)
+Theorem C03_machine_step_is_model_call : forall (I P : Type) (keq : I -> I -> bool) (hash : I -> N) (ple : P -> P -> bool) (peq : P -> P -> bool) (alloc_limit : N), machine_step_is_q_step_stmt keq hash ple peq alloc_limit.
+Proof. intros; apply @RefineMachine.machine_step_is_q_step_thm. Qed.
+Print Assumptions C03_machine_step_is_model_call.
+
+(* C03 *)
+Theorem C03_machine_step_refines_map : forall (I P : Type) (keq : I -> I -> bool) (hash : I -> N) (ple : P -> P -> bool) (peq : P -> P -> bool) (alloc_limit : N), machine_step_refines_stmt keq hash ple peq alloc_limit.
+Proof. intros; apply @RefineMachine.machine_step_refines_thm. Qed.
+Print Assumptions C03_machine_step_refines_map.
+
+(* C01 *)
+Theorem C01_machine_step_refines_spec : forall (I P : Type) (keq : I -> I -> bool) (hash : I -> N) (ple : P -> P -> bool) (peq : P -> P -> bool) (alloc_limit : N), machine_step_refines_stmt keq hash ple peq alloc_limit.
+Proof. intros; apply @RefineMachine.machine_step_refines_thm. Qed.
+Print Assumptions C01_machine_step_refines_spec.
+
+(* C02 *)
+Theorem C02_machine_step_refines_spec : forall (I P : Type) (keq : I -> I -> bool) (hash : I -> N) (ple : P -> P -> bool) (peq : P -> P -> bool) (alloc_limit : N), machine_step_refines_stmt keq hash ple peq alloc_limit.
+Proof. intros; apply @RefineMachine.machine_step_refines_thm. Qed.
+Print Assumptions C02_machine_step_refines_spec.
